@@ -172,16 +172,21 @@ func vfPJMarshalAppend(b []byte, m proto.Message) ([]byte, error) {
 			b = strconv.AppendInt(b, int64(st.Code), 10)
 		}
 		if st.Message != "" {
-			for i := 0; i < len(st.Message); i++ {
-				if !vfIsJSONPlain(st.Message[i]) {
-					return nil, errVfJSON // needs escaping: outside the model
-				}
-			}
 			if st.Code != 0 {
 				b = append(b, ',')
 			}
 			b = append(b, `"message":"`...)
-			b = append(b, st.Message...)
+			for i := 0; i < len(st.Message); i++ {
+				c := st.Message[i]
+				switch {
+				case c == '"' || c == '\\':
+					b = append(b, '\\', c) // protojson escapes these two with a backslash
+				case vfIsJSONPlain(c) || c == '<' || c == '>' || c == '&':
+					b = append(b, c) // protojson does not escape markup characters
+				default:
+					return nil, errVfJSON // control / non-ASCII text: outside the model
+				}
+			}
 			b = append(b, '"')
 		}
 		return append(b, '}'), nil
